@@ -301,7 +301,7 @@ def mux_check(prop, tier, seed, replay):
                 if not os.path.exists(os.path.join(vlib.SPEC, cfg + ".cfg")):
                     raise ToolError(f"missing configuration {cfg}")
                 module = "MC_Live" if cfg.startswith("MC_Live") else "MC_Mux"
-                r = vlib.model_check(module, cfg, workers=10, timeout=3000 if tier == "thorough" else 600)
+                r = vlib.model_check(module, cfg, workers=10, timeout=3000 if tier == "thorough" else 1800)
                 if not r["ok"]:
                     log(r["out"][-3000:])
                     raise ToolError(f"specification configuration {cfg} violates {r['violated']} (design-level counterexample: triage the specification)")
